@@ -72,7 +72,13 @@ def ipv4Parse (s : Bytes) : Option Nat :=
           | n :: rest => go rest (counter + 1) (acc + n * 256 ^ (3 - counter))
         some (go front 0 last)
 
-def natToDec (n : Nat) : Bytes := (Nat.repr n).toUTF8.toList
+/-- decimal digits, most significant first (structural on fuel so that the kernel can evaluate it) -/
+def natToDecF : Nat → Nat → Bytes
+  | 0, _ => []
+  | f + 1, n => if n < 10 then [UInt8.ofNat (48 + n)] else natToDecF f (n / 10) ++ [UInt8.ofNat (48 + n % 10)]
+
+/-- shortest decimal representation (numbers below 10^40; ports and address parts are far below) -/
+def natToDec (n : Nat) : Bytes := natToDecF 40 n
 
 /-- IPv4 serializer: dotted decimal -/
 def ipv4Serialize (a : Nat) : Bytes :=
@@ -274,4 +280,13 @@ def hostParse (idna : Idna) (s : Bytes) (isOpaque : Bool) : Option Host :=
         else if endsInANumber ascii then (ipv4Parse ascii).map Host.ipv4
         else some (.domain ascii)
 
+end AdaVerif.Spec
+
+namespace AdaVerif.Spec
+/-- DNS length limits (RFC 1034 §3.1 / RFC 1123): non-empty, at most 253 bytes without the optional
+    trailing dot, every label 1..63 bytes -/
+def verifyDnsLength (h : Bytes) : Bool :=
+  if h.isEmpty then false else
+  let h' := if h.getLast? == some 0x2E then h.dropLast else h
+  decide (h'.length ≤ 253) && (splitOn 0x2E h').all (fun l => decide (1 ≤ l.length) && decide (l.length ≤ 63))
 end AdaVerif.Spec
